@@ -3,6 +3,6 @@ from .worldcommon import ASSUME, TRUSTED
 
 SPEC = dict(id="C01", kind="world", monitor="budget_ok",
     coq_targets=["theories/Props/C01.vo", "theories/Corr/WorldAll.vo"],
-    level_text="Inductive invariant of the joint controller model (Proofs/WorldInv*.v: names unique, trials are assignments, suggestionCount = length <= largest requests ever <= completed + parallelTrialCount and <= maxTrialCount, caches and pending writes justified by resourceVersion) proved for EVERY action sequence (any interleaving, cache lag, write failure, conflict, abort, trial outcome, raise of maxTrialCount); C01_max_trials / C01_parallel / C01_ever_trials_remain follow. The model is compared step by step with the three real reconcilers on generated histories and the budget monitor is evaluated on the implementation's states",
-    level_note='no-new-trial-after-verdict is proved per reconcile (C01_no_create_after_verdict_plan) and monitored on the implementation; its lift to runs is not yet a theorem' + "; " + "; ".join(ASSUME),
+    level_text="Inductive invariant of the joint controller model (Proofs/WorldInv*.v: names unique, trials are assignments, suggestionCount = length <= largest requests ever <= completed + parallelTrialCount and <= maxTrialCount, caches and pending writes justified by resourceVersion) proved for EVERY action sequence (any interleaving, cache lag, write failure, conflict, abort, trial outcome, raise of maxTrialCount); C01_max_trials / C01_parallel / C01_ever_trials_remain follow; C01_no_create_after_verdict (no trial is created by any action once the stored experiment carries a verdict the user has not enabled to restart) rests on further invariants: observation/class stability of trials under cache lag, monotone recomputation of the verdict, permanence of a failed suggestion, justification of pending status writes. The model is compared step by step with the three real reconcilers on generated histories and the budget monitor is evaluated on the implementation's states",
+    level_note='all three sentences of the property are theorems over every action sequence of the model without teardown (the third one: C01_no_create_after_verdict, for an arbitrary next action under arbitrary cache lag)' + "; " + "; ".join(ASSUME),
     assumptions=ASSUME, trusted_base=TRUSTED)
